@@ -55,6 +55,45 @@ func footprintRuleN(p *core.Program, r *core.Report, rule string, targets [][2]s
 			tfs = append(tfs, tf{fn, true})
 		}
 	}
+	// a kernel moved or added elsewhere is still a kernel: the methods of a target's own receiver type (or functions
+	// handed that receiver) that the targets call, transitively, and that walk a flat array with a stride-stepped
+	// loop of their own feed the same accumulator and are targets too, in whatever file they are declared.  A callee
+	// that is not given the accumulator (IsRingCounterClockwise, called for the sign) is a different computation.
+	{
+		have := map[*ssa.Function]bool{}
+		for _, t := range tfs {
+			have[t.fn] = true
+		}
+		for i := 0; i < len(tfs); i++ {
+			for _, c := range eng.Calls(tfs[i].fn) {
+				g := eng.StaticCallee(c)
+				if g == nil || have[g] || g.Pkg != tfs[i].fn.Pkg || g.Parent() != nil {
+					continue
+				}
+				given := false
+				if rv := tfs[i].fn.Signature.Recv(); rv != nil {
+					for _, a := range c.Common().Args {
+						if types.Identical(a.Type(), rv.Type()) {
+							given = true
+						}
+					}
+				}
+				// or its number is the target's number: the call's result reaches a return of the target through
+				// arithmetic, conversions and merges only (not through a branch condition, which is how the sign test
+				// of IsRingCounterClockwise is used)
+				if cv, ok := c.(ssa.Value); ok && !given {
+					given = flowsToReturn(cv)
+				}
+				if !given {
+					continue
+				}
+				if si := all[g]; si != nil && len(si.LoopFootprints()) > 0 {
+					have[g] = true
+					tfs = append(tfs, tf{g, false})
+				}
+			}
+		}
+	}
 	seenT := map[*ssa.Function]bool{}
 	for _, t := range tfs {
 		fn := t.fn
@@ -1282,4 +1321,46 @@ func hullIdentityPlanarRule(p *core.Program, r *core.Report, rule string) {
 		}
 		r.Check(bad == "", rule, short(m), p.Pos(m.Pos()), true, fmt.Sprintf("%d functions, %d index sites, all on ordinates 0/1", len(set), nsites), bad)
 	}
+}
+
+// flowsToReturn reports whether v reaches a Return of its function through BinOp, UnOp, Convert, ChangeType, Phi and
+// Extract instructions only.
+func flowsToReturn(v ssa.Value) bool {
+	seen := map[ssa.Value]bool{}
+	work := []ssa.Value{v}
+	for len(work) > 0 {
+		x := work[len(work)-1]
+		work = work[:len(work)-1]
+		if seen[x] {
+			continue
+		}
+		seen[x] = true
+		if x.Referrers() == nil {
+			continue
+		}
+		for _, u := range *x.Referrers() {
+			switch u := u.(type) {
+			case *ssa.Return:
+				return true
+			case *ssa.BinOp:
+				switch u.Op {
+				case token.ADD, token.SUB, token.MUL, token.QUO:
+					work = append(work, u)
+				}
+			case *ssa.UnOp:
+				if u.Op == token.SUB {
+					work = append(work, u)
+				}
+			case *ssa.Convert:
+				work = append(work, u)
+			case *ssa.ChangeType:
+				work = append(work, u)
+			case *ssa.Phi:
+				work = append(work, u)
+			case *ssa.Extract:
+				work = append(work, u)
+			}
+		}
+	}
+	return false
 }
